@@ -109,8 +109,43 @@ class Ctx:
             "extra": self.extra, "wall": time.time() - self.t0}))
 
 
+CASE_WATCHDOG_S = int(os.environ.get("VERIF_CASE_WATCHDOG", "60"))
+
+
+class CaseTimeout(BaseException):
+    pass
+
+
+def _on_alarm(signum, frame):
+    raise CaseTimeout()
+
+
 def call_case(run, case):
-    """Run one case through the check's run_case and classify whatever comes out of it."""
+    """Run one case through the check's run_case and classify whatever comes out of it. A case
+    that does not come back within the watchdog (orders of magnitude above any case's cost) is a
+    violation when it is stuck inside the code under test, a harness error otherwise."""
+    import signal
+    import threading
+    use_alarm = hasattr(signal, "SIGALRM") and threading.current_thread() is \
+        threading.main_thread()
+    if use_alarm:
+        signal.signal(signal.SIGALRM, _on_alarm)
+        signal.alarm(CASE_WATCHDOG_S)
+    try:
+        return _call_case(run, case)
+    except CaseTimeout as e:
+        fr = innermost_repo_frame(e)
+        if fr:
+            raise Violation("does-not-terminate@%s:%s" % fr, "no result after %d s" %
+                            CASE_WATCHDOG_S)
+        raise HarnessError("case did not finish within %d s (stuck outside the code under test)"
+                           % CASE_WATCHDOG_S)
+    finally:
+        if use_alarm:
+            signal.alarm(0)
+
+
+def _call_case(run, case):
     try:
         out = run(case)
     except Violation:
